@@ -239,17 +239,42 @@ theorem source_specials_decode :
   decide
 
 /-- The one-character substitutions in the `switch ch` of `scanDollar` are exactly the ones the model's
-    scanner implements: for each `(c, v)` of the source table, `$c` scans to the reference `v`
-    consuming one rune, whatever the regex; and `$$` is a literal `$`. -/
-theorem source_dollar_table (isWord : Nat → Bool) (env : Env) :
-    (∀ p ∈ Generated.Replace.dollarSpecials, scanDollar isWord env [p.1] = .ok (.ref p.2, 1))
-      ∧ Generated.Replace.dollarDollar = true ∧ scanDollar isWord env [36] = .ok (.ch 36, 1) := by
+    scanner implements: for each `(c, v)` of the source table, `$c…` scans to the reference `v`
+    consuming one rune, whatever the regex and whatever follows; and `$$` is a literal `$`. -/
+theorem source_dollar_table (isWord : Nat → Bool) (env : Env) (rest : List Nat) :
+    (∀ p ∈ Generated.Replace.dollarSpecials, scanDollar isWord env (p.1 :: rest) = .ok (.ref p.2, 1))
+      ∧ Generated.Replace.dollarDollar = true ∧ scanDollar isWord env (36 :: rest) = .ok (.ch 36, 1) := by
   have ht : Generated.Replace.dollarSpecials = [(38, 0), (96, -1), (39, -2), (43, -3), (95, -4)] := by decide
   rw [ht]
   refine ⟨?_, by decide, by simp [scanDollar, isDigit, dollar]⟩
   intro p hp
   simp only [List.mem_cons, List.not_mem_nil, or_false] at hp
   rcases hp with h | h | h | h | h <;> subst h <;> simp [scanDollar, isDigit]
+
+/-! ### the scanner -/
+
+/-- **Every reference the scanner produces is valid, and the integer rules denote the scanned
+    pieces.**  For well-formed group maps (`envOk`: group 0 exists, named groups' numbers are capture
+    slots — evaluated by the driver on every regex of leg P), if the scanner accepts the replacement
+    string with token list `toks`, then
+    * every reference token is either one of the four specials or a group number that
+      `isCaptureSlot` accepts — anything else after a `$` was literalised;
+    * `NewReplacerData`'s integer encoding followed by `replacementImpl`'s decoding loses nothing:
+      the parsed pieces are the tokens read off directly (`piecesOf`: adjacent literal runes merged into
+      one string, a group reference as the slot `caps[number]`, the specials as themselves) — no string
+      index or group slot is confused with another rule. -/
+theorem parse_denotes (isWord : Nat → Bool) (env : Env) (henv : envOk env = true) (rep : List Nat) (toks : List Tok)
+    (h : scanLoop isWord env rep 0 = .ok toks) :
+    (∀ t ∈ toks, RefOk env t) ∧ parse isWord env rep = .ok (piecesOf env toks []) := by
+  obtain ⟨hn, h0⟩ := envOk_names env henv
+  have hok := scanLoop_ok isWord env hn h0 rep 0 toks h
+  refine ⟨hok, ?_⟩
+  simp only [parse, newReplacerData, h]
+  rw [buildData_pieces env toks [] [] [] hok (by intro r hr; simp at hr)]
+  simp
+
+example : envOk (exEnv false) = true ∧ envOk ⟨some [(0, 0), (5, 1), (7, 2)], 3, [([48], 0), ([110], 7), ([53], 5)], false⟩ = true := by
+  decide
 
 /-! ### Split -/
 
